@@ -181,3 +181,265 @@ End Combos.
 Arguments ginsert {K C}. Arguments grouped_assoc {K C}. Arguments grouped {K C}.
 Arguments product {X}. Arguments somes {X}. Arguments nonempty {X}.
 Arguments all_combinations {K C}. Arguments exhaustive {K C}.
+
+(* ------------------------------------------------------------------------------------------ *)
+(* Feature keys as pharmpy builds them: tuples of strings and integers, e.g.
+   ('ABSORPTION', 'FO'), ('TRANSITS', 1, 'DEPOT'), ('PERIPHERALS', 2).  Strings are exported as
+   numeric codes (the fixed table below for the names the algorithms inspect, fresh codes >= 1000
+   for anything else). *)
+Inductive atom := AS (s : N) | AI (z : Z).
+Definition atom_eqb (a b : atom) : bool :=
+  match a, b with
+  | AS x, AS y => N.eqb x y
+  | AI x, AI y => Z.eqb x y
+  | _, _ => false
+  end.
+Definition key := list atom.
+Fixpoint key_eqb (a b : key) : bool :=
+  match a, b with
+  | [], [] => true
+  | x :: a', y :: b' => atom_eqb x y && key_eqb a' b'
+  | _, _ => false
+  end.
+Definition kcat (k : key) : atom := hd (AS 0) k.      (* key[0] *)
+
+Definition s_ABSORPTION : N := 1.   Definition s_ELIMINATION : N := 2.  Definition s_TRANSITS : N := 3.
+Definition s_PERIPHERALS : N := 4.  Definition s_LAGTIME : N := 5.      Definition s_COVARIATE : N := 6.
+Definition s_DIRECT : N := 7.       Definition s_EFFECTCOMP : N := 8.   Definition s_INDIRECT : N := 9.
+Definition s_METABOLITE : N := 10.  Definition s_ALLOMETRY : N := 11.
+Definition s_FO : N := 20.          Definition s_ZO : N := 21.          Definition s_SEQ_ZO_FO : N := 22.
+Definition s_INST : N := 23.        Definition s_MM : N := 24.          Definition s_MIX_FO_MM : N := 25.
+Definition s_DEPOT : N := 26.       Definition s_NODEPOT : N := 27.     Definition s_ON : N := 28.
+Definition s_OFF : N := 29.         Definition s_DRUG : N := 30.        Definition s_MET : N := 31.
+
+(* ------------------------------------------------------------------------------------------ *)
+(* modelsearch/algorithms.py: _is_allowed, _is_allowed_peripheral, _get_possible_actions,
+   exhaustive_stepwise, reduced_stepwise.  mfl_funcs is a dict: `keys` below is its key list in
+   dict order.  The function objects are only compared by identity (`mfl_funcs[feat] in func_type`)
+   and every key has its own function object, so "a function of the same type was used" is
+   "a previous feature has the same key[0]".  func.keywords['n'] of a PERIPHERALS key is key[1]. *)
+Definition memk (k : key) (l : list key) : bool := existsb (key_eqb k) l.
+
+(* feat[:len(pat)] == pat *)
+Fixpoint is_prefix (pat k : key) : bool :=
+  match pat, k with
+  | [], _ => true
+  | _ :: _, [] => false
+  | a :: pat', b :: k' => atom_eqb a b && is_prefix pat' k'
+  end.
+
+Definition combo_table := list (key * key).
+
+(* the literal not_supported_combo of _is_allowed (regenerated from source and compared at check time) *)
+Definition not_supported_combo : combo_table :=
+  [ ([AS s_ABSORPTION; AS s_FO], [AS s_TRANSITS; AI 1; AS s_NODEPOT]);
+    ([AS s_ABSORPTION; AS s_ZO], [AS s_TRANSITS]);
+    ([AS s_ABSORPTION; AS s_SEQ_ZO_FO], [AS s_TRANSITS]);
+    ([AS s_ABSORPTION; AS s_SEQ_ZO_FO], [AS s_LAGTIME; AS s_ON]);
+    ([AS s_ABSORPTION; AS s_INST], [AS s_LAGTIME; AS s_ON]);
+    ([AS s_ABSORPTION; AS s_INST], [AS s_TRANSITS]);
+    ([AS s_LAGTIME; AS s_ON], [AS s_TRANSITS]) ].
+
+Definition is_periph (k : key) : bool := atom_eqb (kcat k) (AS s_PERIPHERALS).
+Definition karg1 (k : key) : Z := match k with _ :: AI z :: _ => z | _ => 0%Z end.
+
+Fixpoint zmin (l : list Z) (d : Z) : Z :=
+  match l with [] => d | x :: tl => Z.min x (zmin tl x) end.
+(* list.index *)
+Fixpoint zindex (n : Z) (l : list Z) : option nat :=
+  match l with
+  | [] => None
+  | x :: tl => if Z.eqb x n then Some 0 else option_map S (zindex n tl)
+  end.
+
+Definition n_all (keys : list key) : list Z := map karg1 (filter is_periph keys).
+
+(* _is_allowed_peripheral(func_current, peripheral_previous, mfl_funcs) *)
+Definition allowed_peripheral (keys : list key) (cur : key) (prev : list key) : bool :=
+  let na := n_all keys in
+  let n := karg1 cur in
+  match filter is_periph prev with
+  | [] => Z.eqb n (zmin na n)
+  | _ :: _ =>
+      match zindex n na with
+      | Some (S i) => Z.ltb (nth i na 0%Z) n
+      | _ => false
+      end
+  end.
+
+Definition combo_hit (tbl : combo_table) (cur : key) (prev : list key) : bool :=
+  existsb (fun e => let '(f1, f2) := e in
+             existsb (fun feat => (is_prefix f1 cur && is_prefix f2 feat) || (is_prefix f2 cur && is_prefix f1 feat)) prev)
+          tbl.
+
+(* _is_allowed(feat_current, func_current, feat_previous, mfl_funcs) *)
+Definition allowed (tbl : combo_table) (keys : list key) (cur : key) (prev : list key) : bool :=
+  if memk cur prev then false
+  else if is_periph cur then allowed_peripheral keys cur prev
+  else if key_eqb cur [AS s_TRANSITS; AI 0; AS s_NODEPOT] then false
+  else if existsb (fun f => atom_eqb (kcat f) (kcat cur)) prev then false
+  else match prev with
+       | [] => true
+       | _ => negb (combo_hit tbl cur prev)
+       end.
+
+(* _get_possible_actions for one task: [feat for feat in mfl_funcs if _is_allowed(...)] *)
+Definition actions (tbl : combo_table) (keys : list key) (prev : list key) : list key :=
+  filter (fun f => allowed tbl keys f prev) keys.
+
+Definition is_nil {X} (l : list X) : bool := match l with [] => true | _ => false end.
+
+(* one pass of the `while True` body of exhaustive_stepwise over the current output tasks (leaves,
+   each given by its feature path from the root): leaves without action stay output tasks, the new
+   candidates are appended in creation order *)
+Definition expand_leaf (tbl : combo_table) (keys : list key) (path : list key) : list (list key) :=
+  map (fun f => path ++ [f]) (actions tbl keys path).
+Definition sweep (tbl : combo_table) (keys : list key) (leaves : list (list key)) : list (list key) * list (list key) :=
+  (filter (fun p => is_nil (actions tbl keys p)) leaves, flat_map (expand_leaf tbl keys) leaves).
+
+(* returns (candidates in creation order = model_tasks order, true iff the loop reached `break`) *)
+Fixpoint stepwise_loop (tbl : combo_table) (keys : list key) (fuel : nat)
+         (leaves created : list (list key)) : list (list key) * bool :=
+  match fuel with
+  | 0 => (created, false)
+  | S f =>
+      let '(stuck, new) := sweep tbl keys leaves in
+      match new with
+      | [] => (created, true)
+      | _ => stepwise_loop tbl keys f (stuck ++ new) (created ++ new)
+      end
+  end.
+
+(* exhaustive_stepwise(mfl_funcs, ...) with an empty workflow: the pseudo task '' has no features *)
+Definition exhaustive_stepwise (tbl : combo_table) (keys : list key) : list (list key) * bool :=
+  stepwise_loop tbl keys (S (length keys)) [[]] [].
+(* candidate i (1-based position) is named f'{tool_name}_run{i}' *)
+Definition stepwise_named (tbl : combo_table) (keys : list key) : list (nat * list key) :=
+  let cs := fst (exhaustive_stepwise tbl keys) in combine (seq 1 (length cs)) cs.
+
+(* ---- reduced_stepwise ---- *)
+(* An output task of the search workflow: which task it is (the fit task of candidate n, or the n-th
+   'choose_best_model' collector, or the pseudo task '' of the empty workflow) and the features upstream
+   of it (as a set: _is_allowed and _find_same_model_groups only use membership). *)
+Inductive pref := PRoot | PCand (n : nat) | PColl (n : nat).
+Definition leaf := (pref * list key)%type.
+
+Definition same_set (a b : list key) : bool :=
+  forallb (fun k => memk k b) a && forallb (fun k => memk k a) b.
+
+(* _find_same_model_groups: group the output tasks by equal feature set, first occurrence first,
+   keep the groups with more than one member *)
+Fixpoint group_same (fuel : nat) (leaves : list leaf) : list (list leaf) :=
+  match fuel with
+  | 0 => []
+  | S f =>
+      match leaves with
+      | [] => []
+      | x :: tl => (x :: filter (fun y => same_set (snd x) (snd y)) tl)
+                   :: group_same f (filter (fun y => negb (same_set (snd x) (snd y))) tl)
+      end
+  end.
+Definition same_model_groups (leaves : list leaf) : list (list leaf) :=
+  filter (fun g => Nat.ltb 1 (length g)) (group_same (length leaves) leaves).
+
+Definition leaf_set (l : leaf) : list key := snd l.
+Definition has_actions (tbl : combo_table) (keys : list key) (l : leaf) : bool :=
+  negb (is_nil (actions tbl keys (snd l))).
+
+(* if len(groups) > 1: every group all of whose members still have actions gets a 'choose_best_model'
+   task (appended to the node list; its members stop being output tasks) *)
+Definition collect (tbl : combo_table) (keys : list key) (ncoll : nat) (leaves : list leaf)
+  : list leaf * list (list pref) :=
+  let groups := same_model_groups leaves in
+  if Nat.ltb 1 (length groups) then
+    let chosen := filter (forallb (has_actions tbl keys)) groups in
+    (filter (fun l => negb (existsb (fun g => same_set (snd l) (snd (hd (PRoot, []) g))) chosen)) leaves
+       ++ map (fun ig => (PColl (ncoll + fst ig), snd (hd (PRoot, []) (snd ig)))) (combine (seq 0 (length chosen)) chosen),
+     map (map fst) chosen)
+  else (leaves, []).
+
+(* the candidate-creating double loop: for task_parent, feat_new in actions.items(): for feat in feat_new *)
+Definition new_candidates (tbl : combo_table) (keys : list key) (leaves : list leaf) : list (leaf * key) :=
+  flat_map (fun l => map (fun f => (l, f)) (actions tbl keys (snd l))) leaves.
+
+(* the one case in which `if len(groups) > 1` differs from `if groups`: exactly one group, still expandable *)
+Definition single_group (tbl : combo_table) (keys : list key) (leaves : list leaf) : bool :=
+  match same_model_groups leaves with
+  | [g] => forallb (has_actions tbl keys) g
+  | _ => false
+  end.
+
+(* state: output tasks, created candidates (parent task, parent feature set, new feature) in creation
+   order (candidate i is the i-th), collectors (their member tasks), and whether some pass met the
+   single-group case *)
+Fixpoint reduced_loop (tbl : combo_table) (keys : list key) (fuel : nat)
+         (leaves : list leaf) (created : list (pref * list key * key)) (colls : list (list pref)) (single : bool)
+  : list (pref * list key * key) * list (list pref) * bool * bool :=
+  match fuel with
+  | 0 => (created, colls, false, single)
+  | S f =>
+      let single' := single || single_group tbl keys leaves in
+      let '(leaves1, newcolls) := collect tbl keys (length colls) leaves in
+      let news := new_candidates tbl keys leaves1 in
+      match news with
+      | [] => (created, colls ++ newcolls, true, single')
+      | _ =>
+          let numbered := combine (seq (S (length created)) (length news)) news in
+          reduced_loop tbl keys f
+            (filter (fun l => negb (has_actions tbl keys l)) leaves1
+               ++ map (fun x => (PCand (fst x), snd (fst (snd x)) ++ [snd (snd x)])) numbered)
+            (created ++ map (fun x => (fst (fst x), snd (fst x), snd x)) news)
+            (colls ++ newcolls) single'
+      end
+  end.
+Definition reduced_stepwise (tbl : combo_table) (keys : list key)
+  : list (pref * list key * key) * list (list pref) * bool * bool :=
+  reduced_loop tbl keys (S (length keys)) [(PRoot, [])] [] [] false.
+(* guard: no pass of reduced_stepwise meets exactly one expandable same-feature group *)
+Definition g_reduced_groups (tbl : combo_table) (keys : list key) : bool :=
+  negb (snd (reduced_stepwise tbl keys)).
+(* guard: at most two peripheral-compartment features in the search space *)
+Definition g_periph (keys : list key) : bool := Nat.leb (length (filter is_periph keys)) 2.
+
+(* ------------------------------------------------------------------------------------------ *)
+(* iivsearch/algorithms.py: the brute-force candidate lists.
+   td_exhaustive_no_of_etas: for i, to_remove in enumerate(non_empty_subsets(iiv_names), 1): name run{i+offset}
+   td_exhaustive_block_structure: every partition of iiv_names except the base model's own structure
+   (_is_rv_block_structure: every block of the base model is a block of the partition), numbered from 1+offset *)
+Fixpoint list_eqb_g {X} (eqb : X -> X -> bool) (a b : list X) : bool :=
+  match a, b with
+  | [], [] => true
+  | x :: a', y :: b' => eqb x y && list_eqb_g eqb a' b'
+  | _, _ => false
+  end.
+
+Section IivSearch.
+  Variable A : Type.
+  Variable cmp : A -> A -> comparison.
+  Definition elt_eqb (a b : A) : bool := match cmp a b with Eq => true | _ => false end.
+
+  Definition is_rv_block_structure (base p : list (list A)) : bool :=
+    forallb (fun d => existsb (list_eqb_g elt_eqb d) p) base.
+  Definition block_structure_candidates (names : list A) (base : list (list A)) (offset : nat)
+    : list (nat * list (list A)) :=
+    let ps := filter (fun p => negb (is_rv_block_structure base p)) (partitions cmp names) in
+    combine (seq (1 + offset) (length ps)) ps.
+  Definition no_of_etas_candidates (names : list A) (offset : nat) : list (nat * list A) :=
+    let ss := non_empty_subsets names in combine (seq (1 + offset) (length ss)) ss.
+End IivSearch.
+Arguments is_rv_block_structure {A}. Arguments block_structure_candidates {A}. Arguments no_of_etas_candidates {A}.
+
+(* ------------------------------------------------------------------------------------------ *)
+(* exhaustive(): `funcs = set(mfl_funcs[feat] for feat in combo)` and create_candidate_exhaustive's
+   `for feat, func in zip(combo, funcs)`.  The iteration order of a Python set of function objects is
+   unspecified (address based): it is a parameter `order` of the model (any rearrangement).  Function
+   objects are identified with the key they belong to. *)
+Definition exhaustive_pairs {K C : Type} (cat : K -> C) (ceqb : C -> C -> bool) (order : list K -> list K)
+           (keys : list K) : list (list (K * K)) :=
+  map (fun combo => combine combo (order combo)) (all_combinations cat ceqb keys).
+(* guard: the search space has features of one category only (every combination is a single feature) *)
+Fixpoint all_same_cat {K C : Type} (cat : K -> C) (ceqb : C -> C -> bool) (keys : list K) : bool :=
+  match keys with
+  | a :: ((b :: _) as tl) => ceqb (cat a) (cat b) && all_same_cat cat ceqb tl
+  | _ => true
+  end.
